@@ -52,7 +52,7 @@ from zcsim.world import SimWorld
 ID = "C20"
 LEVEL = "exploration"
 HAS_CLOCK = True
-BUDGET = {"quick": (8000, 300), "thorough": (400000, 1500)}
+BUDGET = {"quick": (14000, 300), "thorough": (400000, 1500)}
 RULE = (
     "A case is one run: a generated logging configuration (1..3 logger "
     "sections + optional eventlog; level spellings over every documented "
